@@ -917,6 +917,11 @@ func brTwoChainScenario(t *testing.T, r *Rec, rounds, nops int) {
 			}
 			for _, bb := range e.batchList() {
 				for _, x := range bb.txs {
+					if a, ok := accepted[x.id]; ok && a.chain != bb.raw.ChainReferenceID {
+						// observation outside C01 (recorded in DESIGN.md): a batch for one chain carries a transfer
+						// the sender addressed to the other chain
+						r.Stat("twochain.transfer_in_batch_of_other_chain")
+					}
 					places[x.id] = append(places[x.id], fmt.Sprintf("batch %s/%d", bb.raw.ChainReferenceID, bb.nonce))
 					if bb.tok == 1 {
 						a, _ := new(big.Int).SetString(x.amount, 10)
